@@ -297,6 +297,11 @@ def gen_constants():
     grab('src/memory/limited_vec.rs', r'if items >= (\d+) \{ items \} else \{ \d+ \}', 'LIMITED_VEC_MIN_ITEMS')
     grab('src/html/local_name.rs', r'h >> \(64 - (\d+)\) == 0', 'HASH_BITS_PER_CHAR')
     grab('src/html/local_name.rs', r"b'a'..=b'z' \| b'A'..=b'Z' => \(h << 5\) \| \(\(u64::from\(ch\) & 0x1F\) \+ (\d+)\)", 'HASH_ALPHA_OFFSET')
+    # the digit arm of LocalNameHash::update: with or without the "not as first character" guard
+    text = strip_comments(open(os.path.join(REPO, 'src/html/local_name.rs')).read())
+    m = re.search(r"b'1'..=b'6'( if h != 0)? => \(h << 5\) \| \(\(u64::from\(ch\) & 0x0F\) - 1\)", text)
+    if not m: die('digit arm of LocalNameHash::update not recognised')
+    out.append('Definition HASH_DIGIT_NEEDS_PREFIX : bool := %s. (* src/html/local_name.rs *)' % ('true' if m.group(1) else 'false'))
     grab('src/rewriter/settings.rs', r'preallocated_parsing_buffer_size:\s*(\d+)', 'DEFAULT_PREALLOC')
     grab('src/parser/tree_builder_simulator/mod.rs', r'DEFAULT_NS_STACK_CAPACITY:\s*usize\s*=\s*(\d+)', 'DEFAULT_NS_STACK_CAPACITY')
     # TokenCaptureFlags bits
